@@ -106,6 +106,8 @@ def gen_c01(rng):
                         used.add(name)
                         break
                 spec = {"kind": "const", "ret": gen_value(rng)}
+                if rng.random() < 0.1:
+                    spec["d"] = rng.choice([0.5, 7.0, 40.0])  # a callable that takes its time (virtual seconds)
                 if rng.random() < 0.25:
                     # several callables return the very same container object (a shared table)
                     spec = {"kind": "shared", "ret": shared_table}
@@ -184,6 +186,8 @@ def gen_c01(rng):
             "methods": methods, "clients": clients, "lifecycle": "serve"}
     if instance:
         prog["instance"] = instance
+    if rng.random() < 0.15:
+        prog["debug_log"] = True
     if kind != "dispatcher" and rng.random() < 0.1:
         prog["second_server"] = "early"  # a server on the other kind of listener lives in the same process
     if kind == "dispatcher" and rng.random() < 0.25:
@@ -756,8 +760,10 @@ def gen_c13_full(rng):
         sv["custom_dispatch"] = "instance"
     methods = {"echo": {"kind": "echo"}, "fail": {"kind": "fail"}, "two": {"kind": "two"}, "fault": {"kind": "fault"},
                "slow": {"kind": "slow", "d": rng.choice([0.25, 0.5, 1.0])}, "sub": {"kind": "sub"}, "bad": {"kind": "baddump"},
-               "err": {"kind": "sharedfault"}, "rej": {"kind": "subrejected"}}
+               "err": {"kind": "sharedfault"}, "rej": {"kind": "subrejected"}, "quit": {"kind": "exit"}}
     names = ["echo", "echo", "fail", "nope", "two", "slow", "slow", "fault", "sub", "bad", "err", "rej", "sub"]
+    if not sv.get("custom_dispatch"):
+        names.append("quit")  # sys.exit() inside a method: an error reply like any other (default dispatch only)
     sv["handlers"] = rng.random() < 0.4
     clients = []
     for ci in range(rng.randint(1, 4)):
@@ -786,7 +792,7 @@ def gen_c13_full(rng):
         clients.append({"version": rng.choice([None, 2.0, 1.0, 1.0]), "history": False, "ops": ops,
                         "content_type": rng.choice(["application/json-rpc", "application/json-rpc", "application/json", "application/jsonrequest"])})
     return {"server": sv, "net": {"seg": rng.choice(["whole", "random"]), "delay": 0}, "methods": methods,
-            "clients": clients, "lifecycle": "serve", "config_mutations": rng.getrandbits(16)}
+            "clients": clients, "lifecycle": "serve", "config_mutations": rng.getrandbits(16), "debug_log": rng.random() < 0.15}
 
 
 def form_of(obj):
@@ -812,12 +818,13 @@ def analyse_c13(program, s, run, verdict):
         ref = h.ref.get(ent["key"])
         if ent["resp"] is None or ref is None:
             continue
-        if ent.get("status") not in (200, None):
+        failed = ent.get("status") not in (200, None)
+        if failed:
             if not str(ref).startswith("EXC:"):
                 v.append(Violation("C13", "history-independent", "http-%s" % ent.get("status"),
                                    "answered with HTTP %s, alone it is answered normally: %s" % (ent.get("status"), ent["req"][:80])))
-            continue
-        if jnorm(ent["resp"]) != jnorm(ref):
+            # (the form rule below holds for whatever JSON the reply carries, an error status included)
+        elif jnorm(ent["resp"]) != jnorm(ref):
             v.append(Violation("C13", "history-independent", "reply-differs-from-fresh-server",
                                "reply %s differs from the reply of a fresh server to the same request %s (request %s)" % (
                                    ent["resp"][:120], str(ref)[:120], ent["req"][:80])))
@@ -953,7 +960,10 @@ class C13Scenario(C04Scenario):
             run.root()
             config_copy_fragment(run)
 
-        verdict = s.run(root)
+        with env.debug_logging(program.get("debug_log")):
+            verdict = s.run(root)
+        if program.get("debug_log"):
+            s.probes["library_logging_at_debug_level"] = 1
         viol, h = analyse_c13(program, s, run, verdict)
         p = dict(s.probes)
         sv = program["server"]
